@@ -1,7 +1,7 @@
 // replay driver (appended to acts/src/scheduler/tests/message.rs of a scratch copy): lifecycle histories on the REAL engine.
 // Each scenario drives a process with keep_processes=true, records the state of every task after every client action and
 // reports any task that leaves a terminal state or moves backwards (property C02), and any action that is accepted on a
-// terminal act (C05).
+// terminal act (C05), and any rejected action that changes a task (C05).
 fn verif_rank(s: &crate::TaskState) -> i32 {
     use crate::TaskState::*;
     match s { None => 0, Ready | Pending | Interrupt => 1, Running => 2, _ => 3 }
@@ -110,6 +110,31 @@ async fn verif_replay_hist_lifecycle() {
                 let s2 = verif_snapshot(&proc); verif_compare(&mut bad, "D", &format!("back(h1 -> step1) = {r:?}"), &s1, &s2);
             }
             None => println!("scenario D: hook act h1 was not created; tree=\n{}", proc.tree_output()),
+        }
+    }
+    // ---- scenario E (C05): a rejected action changes no task (back to an unknown step, back without target, error without code,
+    //      complete aimed at a step, action on an unknown task)
+    {
+        let (engine, proc, id, tids, _sig) = verif_two_branch_proc("verif_e").await;
+        let a1 = { let t = tids.lock().unwrap(); t.get("a1").cloned().unwrap() };
+        let step_tid = proc.task_by_nid("s1").first().map(|t| t.id.clone()).unwrap_or_default();
+        let mut to_nowhere = Vars::new(); to_nowhere.set("to", "no_such_step");
+        let attempts: Vec<(&str, Box<dyn Fn() -> crate::Result<()>>)> = vec![
+            ("back(a1 -> no_such_step)", Box::new(|| engine.executor().act().back(&id, &a1, &to_nowhere))),
+            ("back(a1) without a target", Box::new(|| engine.executor().act().back(&id, &a1, &Vars::new()))),
+            ("error(a1) without an error code", Box::new(|| engine.executor().act().error(&id, &a1, &Vars::new()))),
+            ("complete aimed at the step s1", Box::new(|| engine.executor().act().complete(&id, &step_tid, &Vars::new()))),
+            ("complete aimed at an unknown task", Box::new(|| engine.executor().act().complete(&id, "no_such_task", &Vars::new()))),
+        ];
+        for (what, f) in attempts.iter() {
+            let s0 = verif_snapshot(&proc);
+            let r = f(); wait().await;
+            let s1 = verif_snapshot(&proc);
+            if r.is_ok() { bad.push(format!("REPLAY-FAIL [E] {what} was accepted")); }
+            let mut changed: Vec<String> = Vec::new();
+            for (tid, (nid, st0)) in s0.iter() { match s1.get(tid) { Some((_, st1)) if st1 == st0 => {}, other => changed.push(format!("{nid}: {st0} -> {:?}", other.map(|o| o.1.clone()))) } }
+            for (tid, (nid, st1)) in s1.iter() { if !s0.contains_key(tid) { changed.push(format!("{nid}: new task in state {st1}")); } }
+            if r.is_err() && !changed.is_empty() { bad.push(format!("REPLAY-FAIL [E] {what} was rejected but changed tasks: {}", changed.join(", "))); }
         }
     }
     for b in bad.iter() { println!("{b}"); }
